@@ -208,7 +208,7 @@ def run(ctx):
     # teststatistic uses the observed data at poi_test
     tm = tc.methods["teststatistic"]
     tsnames = {nm for n in ast.walk(tm.node) if isinstance(n, ast.Assign) and isinstance(n.value, ast.Call) and A.call_attr(n.value) == "get_test_stat" for nm in A.assigned_names(n.targets[0])}
-    cs = [c for c in A.calls_in(tm.node) if isinstance(c.func, ast.Name) and c.func.id in tsnames]
+    cs = [c for c in A.calls_in(tm.node) if (isinstance(c.func, ast.Name) and c.func.id in tsnames) or (isinstance(c.func, ast.Call) and A.call_attr(c.func) == "get_test_stat")]
     if cs and len(cs[0].args) >= 2 and "poi_test" in A.names_loaded(cs[0].args[0]) and A.dotted(cs[0].args[1]) == "self.data":
         ctx.holds(r2, f"{CALC}::ToyCalculator.teststatistic", "observed statistic at poi_test on self.data")
     else:
